@@ -29,6 +29,9 @@ def load_known_with_fragment():
 
 vf.load_known = load_known_with_fragment
 
+EXTRA_HARNESSES = []      # (key, source, flags) — filled by the domain sections below
+EXTRA_GENERATORS = []     # functions (rng, exes, quick, cases)
+
 # ---------------------------------------------------------------- operation tables
 # op -> (n positions, destination positions, positions that are read)       (position 0.. : as in the C++ signature)
 RING_OPS = {
@@ -748,6 +751,10 @@ def spec_expect(c):
             _, op, x = s
             e = z_spec(op, [int(v) for v in c.vals], x)
             return None if e is None else {k: str(v) for k, v in e.items()}
+        if s[0] == "RU":
+            _, op, K, x = s
+            e = ru_spec(op, K, [int(v) for v in c.vals], x)
+            return None if e is None else {k: str(v) for k, v in e.items()}
         if s[0] == "Q":
             _, op, x, vals = s
             e = q_spec(op, vals, x)
@@ -791,8 +798,131 @@ def build_all(chk):
     return exes
 
 
-EXTRA_HARNESSES = []      # (key, source, flags) — filled below by the optional domain modules
-EXTRA_GENERATORS = []     # functions (rng, exes, quick, cases)
+
+
+
+# ---------------------------------------------------------------- RecInt free functions (ruint<K>)
+RU_OPS = {
+    "add": (3, [0], [1, 2], None, ""), "add.c": (3, [0], [1, 2], None, ""), "addin": (2, [0], [0, 1], None, ""), "addin.c": (2, [0], [0, 1], None, ""),
+    "add_1": (2, [0], [1], None, ""), "add_wc": (3, [0], [1, 2], "bit", ""), "add_wcin": (2, [0], [0, 1], "bit", ""), "add.w": (2, [0], [1], "u64", ""),
+    "sub": (3, [0], [1, 2], None, ""), "sub.c": (3, [0], [1, 2], None, ""), "subin": (2, [0], [0, 1], None, ""), "sub_1": (2, [0], [1], None, ""),
+    "sub_wc": (3, [0], [1, 2], "bit", ""), "sub.w": (2, [0], [1], "u64", ""), "neg": (2, [0], [1], None, ""),
+    "mul": (3, [0], [1, 2], None, ""), "mulin": (2, [0], [0, 1], None, ""), "mul.w": (2, [0], [1], "u64", ""), "square": (2, [0], [1], None, ""),
+    "addmul": (3, [0], [0, 1, 2], None, ""), "addmul.w": (2, [0], [0, 1], "u64", ""),
+    "lmul": (4, [0, 1], [2, 3], None, "naive"), "lmul_naive": (4, [0, 1], [2, 3], None, "naive"), "laddmul": (5, [0, 1], [2, 3, 4], None, "naive"),
+    "div": (4, [0, 1], [2, 3], None, "nz3"), "div_q": (3, [0], [1, 2], None, "nz2"), "div_r": (3, [0], [1, 2], None, "nz2"), "div_q.w": (2, [0], [1], "u64nz", ""),
+    "mod_n": (3, [0], [1, 2], None, "nz2"), "mod_nin": (2, [0], [0, 1], None, "nz1"), "gcd": (3, [0], [1, 2], None, ""),
+    "inv_mod": (3, [0], [1, 2], None, "inv"), "exp_mod": (4, [0], [1, 2, 3], None, "exp"),
+    "left_shift": (2, [0], [1], "shift", ""), "right_shift": (2, [0], [1], "shift", ""), "left_shift_1": (2, [0], [1], None, ""), "right_shift_1": (2, [0], [1], None, ""),
+    "copy": (2, [0], [1], None, ""),
+    "op+=": (2, [0], [0, 1], None, ""), "op-=": (2, [0], [0, 1], None, ""), "op*=": (2, [0], [0, 1], None, ""), "op/=": (2, [0], [0, 1], None, "nz1"),
+    "op%=": (2, [0], [0, 1], None, "nz1"), "op&=": (2, [0], [0, 1], None, ""), "op|=": (2, [0], [0, 1], None, ""), "op^=": (2, [0], [0, 1], None, ""),
+    "op<<=": (1, [0], [0], "shift", ""), "op>>=": (1, [0], [0], "shift", ""),
+    "op=+": (3, [0], [1, 2], None, ""), "op=-": (3, [0], [1, 2], None, ""), "op=*": (3, [0], [1, 2], None, ""), "op=/": (3, [0], [1, 2], None, "nz2"), "op=%": (3, [0], [1, 2], None, "nz2"),
+}
+RU_NAMES = {"lmul": "hlbc", "lmul_naive": "hlbc", "laddmul": "hlbcd", "div": "qrab", "exp_mod": "rben"}
+
+
+def ru_valid(op, tag, v, W):
+    if tag in ("nz1", "nz2", "nz3") and v[int(tag[-1])] == 0:
+        return False
+    if tag == "inv" and (v[2] < 2 or math.gcd(v[1], v[2]) != 1):
+        return False
+    if tag == "exp" and (v[3] < 3 or v[3] % 2 == 0 or v[2] > 4096):
+        return False
+    return True
+
+
+def ru_spec(op, K, v, s):
+    W = 1 << (1 << K)
+    if op in ("add", "op=+"): return {0: (v[1] + v[2]) % W}
+    if op == "add.c": return {0: (v[1] + v[2]) % W, "R": (v[1] + v[2]) // W}
+    if op in ("addin", "op+="): return {0: (v[0] + v[1]) % W}
+    if op == "addin.c": return {0: (v[0] + v[1]) % W, "R": (v[0] + v[1]) // W}
+    if op == "add_1": return {0: (v[1] + 1) % W}
+    if op == "add_wc": return {0: (v[1] + v[2] + s) % W}
+    if op == "add_wcin": return {0: (v[0] + v[1] + s) % W}
+    if op == "add.w": return {0: (v[1] + s) % W}
+    if op in ("sub", "op=-"): return {0: (v[1] - v[2]) % W}
+    if op == "sub.c": return {0: (v[1] - v[2]) % W, "R": 1 if v[1] < v[2] else 0}
+    if op in ("subin", "op-="): return {0: (v[0] - v[1]) % W}
+    if op == "sub_1": return {0: (v[1] - 1) % W}
+    if op == "sub_wc": return {0: (v[1] - v[2] - s) % W}
+    if op == "sub.w": return {0: (v[1] - s) % W}
+    if op == "neg": return {0: (-v[1]) % W}
+    if op in ("mul", "op=*"): return {0: v[1] * v[2] % W}
+    if op in ("mulin", "op*="): return {0: v[0] * v[1] % W}
+    if op == "mul.w": return {0: v[1] * s % W}
+    if op == "square": return {0: v[1] * v[1] % W}
+    if op == "addmul": return {0: (v[0] + v[1] * v[2]) % W}
+    if op == "addmul.w": return {0: (v[0] + v[1] * s) % W}
+    if op in ("lmul", "lmul_naive"): return {0: v[2] * v[3] // W, 1: v[2] * v[3] % W}
+    if op == "laddmul": return {0: (v[2] * v[3] + v[4]) // W % W, 1: (v[2] * v[3] + v[4]) % W}
+    if op == "div": return {0: v[2] // v[3], 1: v[2] % v[3]}
+    if op in ("div_q", "op=/"): return {0: v[1] // v[2]}
+    if op in ("div_r", "op=%", "mod_n"): return {0: v[1] % v[2]}
+    if op == "div_q.w": return {0: v[1] // s}
+    if op in ("mod_nin", "op%="): return {0: v[0] % v[1]}
+    if op == "op/=": return {0: v[0] // v[1]}
+    if op == "gcd": return {0: math.gcd(v[1], v[2])}
+    if op == "inv_mod": return {0: pow(v[1], -1, v[2])}
+    if op == "exp_mod": return {0: pow(v[1], v[2], v[3])}
+    if op == "left_shift": return {0: (v[1] << s) % W}
+    if op == "right_shift": return {0: v[1] >> s}
+    if op == "left_shift_1": return {0: (v[1] << 1) % W}
+    if op == "right_shift_1": return {0: v[1] >> 1}
+    if op == "copy": return {0: v[1]}
+    if op == "op&=": return {0: v[0] & v[1]}
+    if op == "op|=": return {0: v[0] | v[1]}
+    if op == "op^=": return {0: v[0] ^ v[1]}
+    if op == "op<<=": return {0: (v[0] << s) % W}
+    if op == "op>>=": return {0: v[0] >> s}
+    return None
+
+
+def ru_value(rng, K, small=False):
+    W = 1 << (1 << K)
+    k = rng.below(6)
+    if small:
+        return rng.choice([0, 1, 2, 3, 7, rng.range(0, 4096)])
+    if k == 0:
+        return rng.choice([0, 1, 2, W - 1, W - 2, W // 2, W // 2 - 1, (1 << (1 << (K - 1))) - 1, 1 << (1 << (K - 1))])
+    if k <= 3:
+        return vf.limbs_value(rng, 1 << (K - 6))
+    return rng.bits(rng.range(1, 1 << K))
+
+
+def gen_ru_cases(rng, exes, quick, cases):
+    reps = 3 if quick else 30
+    for K in (6, 7, 8, 9, 10, 11):
+        W = 1 << (1 << K)
+        for op, (n, dests, reads, sk, tag) in sorted(RU_OPS.items()):
+            if tag == "naive" and K >= 10:
+                continue       # lmul above the Karatsuba threshold is documented "NOT safe" (rumul.h) for outputs aliasing inputs
+            if K >= 10 and (op in ("exp_mod", "inv_mod", "gcd") or quick and op.startswith("op")):
+                continue
+            for idx in partitions(n, dests):
+                if (op == "exp_mod" and idx[0] == idx[3]) or (op == "inv_mod" and idx[0] == idx[2]):
+                    continue       # exp_mod(a, b, c, a): the modulus is overwritten by the accumulator and the next reduction
+                                   # divides by zero (SIGFPE kills the harness); recorded in frag/C15.design.md, not run
+                for rep in range(reps if K <= 8 else max(1, reps // 3)):
+                    x = None
+                    if sk == "bit":
+                        x = rng.below(2)
+                    elif sk == "shift":
+                        x = rng.choice([0, 1, 63, 64, 65, (1 << K) - 1, (1 << K) // 2, rng.range(0, (1 << K) - 1)])
+                    elif sk:
+                        x = scalar(rng, sk)
+                    vals = class_values(rng, n, dests, reads, idx, lambda k: ru_value(rng, K, small=(tag == "exp" and k == 2)), lambda k: ru_value(rng, K))
+                    c = Case("recint", "RU", K, op, n, dests, reads, idx, vals, [x] if sk else [], "RecInt::" + op + "(ruint<K>)", RU_NAMES.get(op))
+                    if not ru_valid(op, tag, c.vals, W) or not ru_valid(op, tag, c.alias_vals(), W):
+                        continue
+                    c.spec = ("RU", op, K, x)
+                    cases.append(c)
+
+
+EXTRA_HARNESSES.append(("recint", "c15_recint.C", ()))
+EXTRA_GENERATORS.append(gen_ru_cases)
 
 
 def main(tier, replay=None):
